@@ -14,6 +14,7 @@ TRUSTED = ["numpy long double arithmetic", "numpy.searchsorted"]
 ASSUMPTIONS = ["clipping cases with a datum within 1e-12 (relative) of the threshold are skipped",
                "weighted-median cases with a cumulative weight within 1e-12 of half the total are skipped unless weights are integer valued",
                "subsets whose weights sum to zero are not generated"]
+THOROUGH_ROUNDS = 15      # the thorough tier runs the generator over this many derived seeds
 REQUIRED = {"quick": {"C18.wmom": 600, "C18.wmedian": 300, "C18.sigma_clip": 400, "C18.interplin": 300,
                       "C18.get_stats": 200, "C18.covcor": 150},
             "thorough": {"C18.wmom": 12000, "C18.wmedian": 6000, "C18.sigma_clip": 8000, "C18.interplin": 6000,
